@@ -85,8 +85,10 @@ class Ctx:
         self.prefix = list(prefix)
         self.pos = 0
         self.conds = []          # z3 bools taken on this path
+        self.conds_at = []       # atom set of each path condition
         self.cond_atoms = set()
         self.assumes = []        # z3 bools from harness preconditions
+        self.assumes_at = []     # atom set of each assumption (None = unknown: never used by the light check)
         self.decided = {}
         self.new_prefixes = []
         self.res = PathResult(prefix)
@@ -116,6 +118,41 @@ class Ctx:
                     if j not in seen:
                         stack.append(j)
         return out
+
+    def _closure(self, atoms):
+        seen = set()
+        stack = list(atoms)
+        while stack:
+            i = stack.pop()
+            if i in seen:
+                continue
+            seen.add(i)
+            stack.extend(S.ATOMS[i].deps)
+        return seen
+
+    def light_check(self, zcond, atoms, timeout_ms=1500):
+        ex = self.ex
+        cl = self._closure(atoms)
+        s = ex.new_solver(timeout_ms)
+        seen = set()
+        for a in self._axioms(atoms):
+            k = a.get_id()
+            if k not in seen:
+                seen.add(k)
+                s.add(a)
+        for a, at in zip(self.assumes, self.assumes_at + [None] * (len(self.assumes) - len(self.assumes_at))):
+            if at is not None and at <= cl:
+                s.add(a)
+        for c, at in zip(self.conds, self.conds_at):
+            if at <= cl:
+                s.add(c)
+        s.add(zcond)
+        t0 = time.time()
+        r = str(s.check())
+        ex.stats.queries += 1
+        ex.stats.solver_s += time.time() - t0
+        ex.stats.light = getattr(ex.stats, 'light', 0) + 1
+        return r
 
     def check(self, extra, extra_atoms, timeout_ms, want_model=False):
         """satisfiability of axioms & assumptions & path & extra"""
@@ -179,6 +216,19 @@ class Ctx:
             if len(self.prefix) >= self.ex.max_decisions:
                 self.res.outcome = 'cut'
                 raise PathEnd()
+            # light check first: only the constraints over the condition's own atoms (a subset of the constraints
+            # being unsatisfiable settles infeasibility even when the full query would time out)
+            lt = self.light_check(sb.z, sb.atoms)
+            lf = self.light_check(z3.Not(sb.z), sb.atoms) if lt != 'unsat' else 'sat'
+            if lt == 'unsat' or lf == 'unsat':
+                take = (lf == 'unsat')
+                self.prefix.append(take)
+                self.decided[key] = take
+                self.conds.append(sb.z if take else z3.Not(sb.z))
+                self.conds_at.append(frozenset(sb.atoms))
+                self.cond_atoms |= sb.atoms
+                self.res.n_decisions += 1
+                return take
             self.ex.stats.branch_queries += 1
             rt, _, _, _ = self.check([sb.z], sb.atoms, self.ex.branch_timeout_ms)
             if rt == 'unsat':
@@ -197,6 +247,7 @@ class Ctx:
             self.prefix.append(take)
         self.decided[key] = take
         self.conds.append(sb.z if take else z3.Not(sb.z))
+        self.conds_at.append(frozenset(sb.atoms))
         self.cond_atoms |= sb.atoms
         self.res.n_decisions += 1
         return take
@@ -205,6 +256,9 @@ class Ctx:
     def assume(self, cond):
         if isinstance(cond, SymBool):
             self.assumes.append(cond.z)
+            while len(self.assumes_at) < len(self.assumes) - 1:
+                self.assumes_at.append(None)
+            self.assumes_at.append(frozenset(cond.atoms))
             self.extra_atoms |= cond.atoms
         elif not cond:
             self.res.outcome = 'infeasible'
